@@ -25,7 +25,7 @@ def strategy(draw):
         prof = Profile(max_frames=4, max_lfs=1, **base)
     else:
         prof = Profile(max_frames=2, max_lfs=3, interleave=True, lf_distinct_sets=(mode == 'distinct'),
-                       named_sets=(mode != 'shared'), sources=('inline', 'dict'), **base)
+                       named_sets=(mode != 'shared'), sources=('inline', 'dict', 'struct'), **base)
     spec = draw(file_specs(prof))
     if mode == 'partial' and len(spec['lfs']) > 1:
         # some kinds share a set name across logical files, others are kept apart
@@ -38,7 +38,7 @@ def strategy(draw):
                     op['set'] = f"{op['t'].upper()}-LF{i}"
                 else:
                     op.pop('set', None)
-    if spec['write'].get('source') == 'dict' and len(spec['lfs']) > 1:
+    if spec['write'].get('source') in ('dict', 'struct') and len(spec['lfs']) > 1:
         # a dict passed at write() serves all logical files: dataset names must be distinct across them
         for i, lf in enumerate(spec['lfs']):
             k = 0
@@ -47,6 +47,32 @@ def strategy(draw):
                     k += 1
                     op['dsname'] = f"LF{i}-DS{k}"
     spec['mode'] = mode
+    if len(spec['lfs']) > 1 and draw(st.integers(0, 5)) == 0:
+        # a frame of a later logical file is handed a channel OBJECT of an earlier logical file (with or without a
+        # same-named twin of its own): the reference cannot resolve inside its logical file, so write() must refuse
+        cands = [(i, j, k) for i, lf in enumerate(spec['lfs']) if i > 0 for j, op in enumerate(lf['ops'])
+                 if op['t'] == 'frame' and op['attrs'].get('channels', {}).get('v')
+                 for k in range(len(op['attrs']['channels']['v']))]
+        donors = [(i, j) for i, lf in enumerate(spec['lfs']) for j, op in enumerate(lf['ops']) if op['t'] == 'channel']
+        if cands:
+            i, j, k = draw(st.sampled_from(cands))
+            earlier = [d for d in donors if d[0] < i]
+            if earlier:
+                di, dj = draw(st.sampled_from(earlier))
+                spec.pop('order', None)             # creation order: logical file by logical file
+                fr = spec['lfs'][i]['ops'][j]
+                own = spec['lfs'][i]['ops'][fr['attrs']['channels']['v'][k]['$ref']]
+                donor = spec['lfs'][di]['ops'][dj]
+                twin = draw(st.booleans())
+                if twin:
+                    # the frame's own channel keeps existing under the donor's name (same set name as well)
+                    own['name'] = donor['name']
+                    if donor.get('set') is not None:
+                        own['set'] = donor['set']
+                    else:
+                        own.pop('set', None)
+                fr['attrs']['channels']['v'][k] = {'$ref': [di, dj]}
+                spec['foreign'] = 'twin' if twin else 'no-twin'
     return spec
 
 
@@ -72,7 +98,8 @@ class C18(Property):
                  "logical file; a set-sharing configuration may raise instead")
     rule = ("cases: 1-4 frames with independent row counts in one logical file, or 1-3 logical files x set-name "
             "assignment {distinct per file, all default, partially shared} x interleaved call order x data inline or "
-            "passed at write(); non-trivial = >= 2 logical files with a shared set name, or >= 2 frames with different "
+            "passed at write() as dict / structured array; a frame handed a channel object of another logical file "
+            "(must be refused); non-trivial = >= 2 logical files with a shared set name, or >= 2 frames with different "
             "row counts")
 
     def searches(self, ctx):
@@ -87,6 +114,16 @@ class C18(Property):
         nfr = sum(1 for lf in spec['lfs'] for op in lf['ops'] if op['t'] == 'frame')
         labels = ['mode:' + mode, f"lfs:{len(spec['lfs'])}"] + (['shared-set-name'] if shared else [])
         nt = shared or (nfr >= 2 and len(rows) >= 2)
+        foreign = spec.pop('foreign', None)
+        if foreign:
+            from vf.spec import build as B
+            r = B.build_and_write(spec, ctx.path('foreign.dlis'), ctx.scratch)
+            labels.append('foreign-channel:' + foreign)
+            if r['outcome'] == 'written':
+                return Result([Violation(f"foreign-channel-accepted/{foreign}",
+                                         "a frame holding a channel object of another logical file was written")],
+                              labels, True, 'written')
+            return Result([], labels + ['raised'], True, outcome_label(r))
         r, dec, ferr = specrun.write_and_decode(spec, ctx)
         if r['outcome'] != 'written':
             return Result([], labels + ['raised'], nt and shared, outcome_label(r))
